@@ -69,3 +69,55 @@ Definition name_ssh_ed25519 : bytes := ascii_bytes [115; 115; 104; 45; 101; 100;
 Definition enc_rsa_blob (e n : Z) : bytes := enc_string name_ssh_rsa ++ enc_mpint e ++ enc_mpint n.
 Definition enc_dss_blob (p q g y : Z) : bytes := enc_string name_ssh_dss ++ enc_mpint p ++ enc_mpint q ++ enc_mpint g ++ enc_mpint y.
 Definition enc_ed25519_blob (k : bytes) : bytes := enc_string name_ssh_ed25519 ++ enc_string k.
+
+(* RFC 4253 section 4.2, identification string: SSH-protoversion-softwareversion SP comments CR LF; "the maximum length of
+   the string is 255 characters, including the Carriage Return and Line Feed" *)
+Definition b_dash : Byte.byte := z2b 45.
+Definition b_sp : Byte.byte := z2b 32.
+Definition b_cr : Byte.byte := z2b 13.
+Definition b_lf : Byte.byte := z2b 10.
+Definition banner_prefix : bytes := ascii_bytes [83; 83; 72; 45].
+Definition banner_max : Z := 255.
+Definition enc_banner (proto software : bytes) (comment : option bytes) : option bytes :=
+  let b := banner_prefix ++ proto ++ [b_dash] ++ software ++ match comment with Some c => b_sp :: c | None => [] end ++ [b_cr; b_lf] in
+  if zlen b <=? banner_max then Some b else None.
+Fixpoint until_byte (x : Byte.byte) (l : bytes) : option (bytes * bytes) :=
+  match l with
+  | [] => None
+  | c :: r => if b2z c =? b2z x then Some ([], r)
+              else match until_byte x r with Some (a, b) => Some (c :: a, b) | None => None end
+  end.
+Fixpoint bytes_eq (a b : bytes) : bool :=
+  match a, b with
+  | [], [] => true
+  | x :: a', y :: b' => (b2z x =? b2z y) && bytes_eq a' b'
+  | _, _ => false
+  end.
+(* (protoversion, softwareversion, comments, length of the identification string) *)
+Definition dec_banner (l : bytes) : option (bytes * bytes * option bytes * Z) :=
+  let? (line, _) := until_byte b_lf l in
+  let n := zlen line + 1 in
+  if banner_max <? n then None else
+  let line := match rev line with c :: r => if b2z c =? b2z b_cr then rev r else line | [] => line end in
+  if negb (bytes_eq (firstn 4 line) banner_prefix) then None else
+  let? (proto, rest) := until_byte b_dash (skipn 4 line) in
+  match until_byte b_sp rest with
+  | Some (sw, c) => Some (proto, sw, Some c, n)
+  | None => Some (proto, rest, None, n)
+  end.
+
+(* OpenSSH PROTOCOL.certkeys, ssh-ed25519-cert-v01@openssh.com: the certificate blob whose digests are the fingerprints.
+   string type, string nonce, string pk, uint64 serial, uint32 type, string key id, string valid principals,
+   uint64 valid after, uint64 valid before, string critical options, string extensions, string reserved,
+   string signature key, string signature.  An option is  string name, string data  where data is empty or itself a string. *)
+Definition name_cert_ed25519 : bytes :=
+  ascii_bytes [115; 115; 104; 45; 101; 100; 50; 53; 53; 49; 57; 45; 99; 101; 114; 116; 45; 118; 48; 49; 64; 111; 112; 101; 110; 115; 115;
+               104; 46; 99; 111; 109].
+Definition enc_cert_option (o : bytes * option bytes) : bytes :=
+  enc_string (fst o) ++ enc_string (match snd o with None => [] | Some d => enc_string d end).
+Definition enc_cert_ed25519 (nonce pk : bytes) (serial ctype : Z) (keyid : bytes) (principals : list bytes) (after before : Z)
+    (critical extensions : list (bytes * option bytes)) (reserved sigkey sigdata : bytes) : bytes :=
+  enc_string name_cert_ed25519 ++ enc_string nonce ++ enc_string pk ++ enc_uint 8 serial ++ enc_uint 4 ctype ++ enc_string keyid
+  ++ enc_string (concat (map enc_string principals)) ++ enc_uint 8 after ++ enc_uint 8 before
+  ++ enc_string (concat (map enc_cert_option critical)) ++ enc_string (concat (map enc_cert_option extensions))
+  ++ enc_string reserved ++ enc_string (enc_ed25519_blob sigkey) ++ enc_string (enc_string name_ssh_ed25519 ++ enc_string sigdata).
